@@ -16,6 +16,9 @@ Pending polls before each chunk) x a set of suspension points at which the pendi
 is dropped and a new one created; exhaustive lanes: every subset of the suspension points of small \
 streams (<= 12 points) and 'cancel every k-th Pending poll' for every k. Oracle: the sequence of \
 results equals the reference decode of each frame, then end-of-stream (the no-cancellation model). \
+In the mixed-forms lane reply frames are received through a generated alternation of receive_reply \
+and chain reply streams (1..3 calls, polled item by item), each abandoned after 0..2 Pending polls - \
+the receive that follows an abandoned one need not be of the same kind. \
 A further lane drives the abandonment the way zlink itself does it: C08-style server scenarios \
 (several connections, calls split across chunks, a poll of Server::run() after every delivery), in \
 which the server drops every pending receive_call future whenever another select branch wins; the \
@@ -60,6 +63,175 @@ fn case_strategy() -> impl Strategy<Value = RxCase> {
                 cancel,
             }
         })
+}
+
+// ---------------------------------------------------------------------------------------------
+// Mixed receive forms: the receive that follows an abandoned one need not be of the same kind.
+
+/// Reply frames received through a generated alternation of `receive_reply` and chain reply
+/// streams (`chain_call(..).append(..).send()` of 1..3 calls, polled item by item); every form is
+/// abandoned (the future / the stream dropped) after `patience` Pending polls and the next step
+/// carries on with whatever form comes next.
+#[derive(Debug, Clone, serde::Serialize, serde::Deserialize)]
+pub struct MixCase {
+    pub frames: Vec<vcommon::frames::B>,
+    pub cuts: Vec<usize>,
+    pub pend: Vec<u8>,
+    /// (form selector: 0 = receive_reply, 1..=3 = a chain of that many calls; patience)
+    pub steps: Vec<(u8, u8)>,
+}
+
+fn mix_strategy() -> impl Strategy<Value = MixCase> {
+    (
+        vcommon::frames::frames_strategy(vcommon::frames::Domain::Replies, 6, 3),
+        chunk_plan_strategy(),
+        prop::collection::vec(0u8..4, 1..5),
+        prop::collection::vec((0u8..4, 0u8..3), 1..8),
+    )
+        .prop_map(|(frames, plan, pend, steps)| {
+            let cuts = resolve_cuts(&plan, &stream_of(&frames));
+            MixCase { frames, cuts, pend, steps }
+        })
+}
+
+pub fn check_mix(case: &MixCase, stats: &mut Stats) -> CaseResult {
+    use vcommon::{
+        exec::{poll_next_once, poll_once, run_until_ready},
+        rx::{classify_reply, ref_reply, Outcome},
+        sim::{ReadEv, SimSocket},
+        types::{ErrA, MethodA, OptParams},
+    };
+    use zlink_core::{Call, Connection};
+    let stream = stream_of(&case.frames);
+    let chunks = split_at_cuts(&stream, &case.cuts);
+    let mut script = Vec::new();
+    for (i, c) in chunks.iter().enumerate() {
+        for _ in 0..case.pend[i % case.pend.len()] {
+            script.push(ReadEv::Pending);
+        }
+        script.push(ReadEv::Data(c.clone()));
+    }
+    script.push(ReadEv::Eof);
+    let script_len = script.len();
+    let (sock, handle) = SimSocket::with_script(script);
+    let mut conn = Connection::new(sock);
+    let call = Call::new(MethodA::Ping);
+    let mut got: Vec<Outcome> = Vec::new();
+    let mut frame_ends = Vec::new();
+    let mut off = 0u64;
+    for f in &case.frames {
+        off += f.0.len() as u64 + 1;
+        frame_ends.push(off);
+    }
+    let at_boundary = |h: &vcommon::sim::SimHandle| {
+        let b = h.read.borrow().bytes;
+        b == 0 || frame_ends.contains(&b)
+    };
+    let mut abandoned_mid_frame_then_other_form = false;
+    let mut last_abandon: Option<(bool, bool)> = None; // (was a stream, mid frame)
+    let mut done = false;
+    let max_steps = 40 + 3 * script_len;
+    let mut step = 0;
+    while !done && step < max_steps {
+        let (form, patience) = case.steps[step % case.steps.len()];
+        step += 1;
+        let is_stream = form % 4 != 0;
+        if let Some((was_stream, mid)) = last_abandon.take() {
+            if mid && was_stream != is_stream {
+                abandoned_mid_frame_then_other_form = true;
+            }
+        }
+        if !is_stream {
+            let fut = conn.receive_reply::<OptParams, ErrA>();
+            let mut fut = std::pin::pin!(fut);
+            let mut ready = None;
+            for _ in 0..=patience {
+                if let std::task::Poll::Ready(r) = poll_once(fut.as_mut()) {
+                    ready = Some(classify_reply(r));
+                    break;
+                }
+            }
+            match ready {
+                Some(o) => {
+                    done = o == Outcome::Eof;
+                    got.push(o);
+                }
+                None => last_abandon = Some((false, !at_boundary(&handle))),
+            }
+        } else {
+            let n = (form % 4) as usize;
+            let mut chain = match conn.chain_call::<MethodA<'_>, OptParams, ErrA>(&call) {
+                Ok(c) => c,
+                Err(e) => return Err(Fail::new("harness", format!("chain_call: {e:?}"))),
+            };
+            for _ in 1..n {
+                chain = match chain.append(&call) {
+                    Ok(c) => c,
+                    Err(e) => return Err(Fail::new("harness", format!("append: {e:?}"))),
+                };
+            }
+            let s = match run_until_ready(chain.send(), 8) {
+                Some(Ok(s)) => s,
+                other => return Err(Fail::new("harness", format!("send: {:?}", other.map(|r| r.map(|_| ()))))),
+            };
+            let mut s = std::pin::pin!(s);
+            let mut pendings = 0u8;
+            loop {
+                match poll_next_once(s.as_mut()) {
+                    std::task::Poll::Ready(Some(item)) => {
+                        let o = classify_reply(item);
+                        let stop = matches!(o, Outcome::Eof);
+                        got.push(o);
+                        if stop {
+                            done = true;
+                            break;
+                        }
+                    }
+                    std::task::Poll::Ready(None) => break,
+                    std::task::Poll::Pending => {
+                        pendings += 1;
+                        if pendings > patience {
+                            last_abandon = Some((true, !at_boundary(&handle)));
+                            break;
+                        }
+                    }
+                }
+            }
+        }
+    }
+    stats.class("lane:mixed-receive-forms");
+    if abandoned_mid_frame_then_other_form {
+        stats.class("mixed-forms:abandoned-mid-frame-then-resumed-in-the-other-form");
+        stats.nontrivial_hash(hash_of(&("mix", &case.frames, &case.cuts, &case.pend, &case.steps)));
+    }
+    let mut want: Vec<Outcome> = Vec::new();
+    for f in &case.frames {
+        match ref_reply::<OptParams, ErrA>(&f.0) {
+            vcommon::rx::Expect::Exactly(o) => want.push(o),
+            vcommon::rx::Expect::DecodeErrOr(o) => {
+                // either outcome is admitted for non-object documents: take what was observed
+                let seen = got.get(want.len()).cloned();
+                want.push(if seen.as_ref() == Some(&o) { o } else { Outcome::DecodeErr });
+            }
+        }
+    }
+    want.push(Outcome::Eof);
+    if got != want {
+        let d = got.iter().zip(&want).position(|(a, b)| a != b).unwrap_or(got.len().min(want.len()));
+        return Err(Fail::new(
+            "rx-mixed-forms",
+            format!(
+                "{} frames received through {} steps of receive_reply / chain reply streams with abandonment: {} results (expected {}); first difference at result {d}: got {:?}, expected {:?}",
+                case.frames.len(),
+                step,
+                got.len(),
+                want.len(),
+                got.get(d),
+                want.get(d)
+            ),
+        ));
+    }
+    Ok(())
 }
 
 fn check_case(case: &RxCase, stats: &mut Stats) -> CaseResult {
@@ -195,6 +367,13 @@ pub fn run(ctx: &Ctx) -> i32 {
     stats.merge(s3);
     viol.extend(v3);
 
+    let (s6, v6) = run_shards(ctx, "mixed-forms", shards, cases / 2, mix_strategy, |c, stats| {
+        stats.sample(|| json!({"lane": "mixed-forms", "stream": truncate(&show_bytes(&stream_of(&c.frames)), 160), "cuts": c.cuts, "pend": c.pend, "steps": c.steps}));
+        check_mix(c, stats)
+    });
+    stats.merge(s6);
+    viol.extend(v6);
+
     // The server's main loop is the one place in zlink that abandons receives systematically: all
     // pending receive_call futures are dropped whenever another select branch wins. Run C08-style
     // scenarios (calls split across chunks, deliveries of several connections interleaved, a poll
@@ -248,6 +427,11 @@ pub fn run(ctx: &Ctx) -> i32 {
 pub fn replay(lane: &str, case: serde_json::Value) -> CaseResult {
     if lane == "through-server" {
         return crate::c08::replay(lane, case);
+    }
+    if lane == "mixed-forms" {
+        let c: MixCase = serde_json::from_value(case).map_err(|e| Fail::new("bad-replay", e.to_string()))?;
+        println!("stream: {}\ncuts {:?} pend {:?} steps {:?}", truncate(&show_bytes(&stream_of(&c.frames)), 600), c.cuts, c.pend, c.steps);
+        return check_mix(&c, &mut Stats::default());
     }
     let case: RxCase = serde_json::from_value(case).map_err(|e| Fail::new("bad-replay", e.to_string()))?;
     let run = case.run();
